@@ -139,6 +139,8 @@ pub async fn clean_run_with(rng: &mut Rng, backend: Backend, n_ops: usize, burst
     let burst_at = burst.map(|_| 2 + rng.usize(n_ops.saturating_sub(3).max(1)));
     let mut i = 0;
     let mut burst_done = false;
+    let motif_at: Vec<usize> = if burst.is_none() { vec![1 + rng.usize(n_ops.max(2) - 1), 1 + rng.usize(n_ops.max(2) - 1)] } else { vec![] };
+    let mut motif_done: Vec<usize> = vec![];
     while i < n_ops || !planned.is_empty() {
         if Some(i) == burst_at && !burst_done {
             burst_done = true;
@@ -159,9 +161,36 @@ pub async fn clean_run_with(rng: &mut Rng, backend: Backend, n_ops: usize, burst
             st.count(&format!("allocation_bursts:{kind:?}"));
             st.max("max_allocation_burst_len", k as u64);
         }
+        // motif "document mutation, extension write, flush": the eager metadata write of an
+        // extension call sits between a document mutation and the checkpoint that has to persist
+        // the id set (two eager writers of one metadata object with different claims on it)
+        if motif_at.contains(&i) && planned.is_empty() && !motif_done.contains(&i) {
+            motif_done.push(i);
+            planned.push_back(Planned::DocMutation);
+            planned.push_back(Planned::ExtOp);
+            if rng.chance(1, 3) {
+                planned.push_back(Planned::ExtOp);
+            }
+            planned.push_back(Planned::Fixed(Op::Flush));
+            st.count("motif_mutation_extension_flush");
+        }
         let from_plan = planned.pop_front();
         let in_burst = from_plan.is_some();
         let mut op = match from_plan {
+            Some(Planned::DocMutation) => {
+                let mut op = gen_op(rng, &d.model, d.set, &g);
+                for _ in 0..20 {
+                    if matches!(op, Op::Add(_) | Op::Remove(_) | Op::Update(_, _, None)) {
+                        break;
+                    }
+                    op = gen_op(rng, &d.model, d.set, &g);
+                }
+                op
+            }
+            Some(Planned::ExtOp) => {
+                let keys: Vec<String> = d.model.ext.keys().cloned().collect();
+                if !keys.is_empty() && rng.chance(2, 3) { Op::RemoveExt(rng.pick(&keys).clone()) } else { Op::SaveExt(format!("k{}", rng.below(3)), rng.below(1000)) }
+            }
             Some(Planned::Fixed(op)) => op,
             Some(Planned::FreshAdd) => {
                 // unique fields drawn from a huge space: accepted unless the wrong-dimension coin hits
@@ -236,6 +265,10 @@ enum Planned {
     Fixed(Op),
     FreshAdd,
     RemoveLastAdded,
+    /// an add / update / remove drawn from the generator
+    DocMutation,
+    /// remove_extension of an existing key when there is one, else save_extension
+    ExtOp,
 }
 
 /// What had been acknowledged when mutation k landed, and the operation in flight.
@@ -695,6 +728,217 @@ pub async fn unknown_outcome(seed_rng: &Rng, backend: Backend, n_ops: usize, fau
     }
 }
 
+/// **A backend call fails cleanly, the application keeps using the live handle, later the power
+/// goes.** The workload is a run of fresh adds that crosses the 64-id allocation-watermark stride
+/// (with one flush somewhere inside); one backend call `a` fails (before landing, or after landing
+/// with an error). When the handle stays Active the driver continues on it - as an application
+/// that got a clean error for one add would - otherwise it reopens like `unknown_outcome`. After
+/// the last add, WITHOUT a flush, the backend is snapshotted (power loss) and recovered: every
+/// acknowledged add must be there. This is the combination "single-call fault, then crash later"
+/// that neither the prefix enumeration (no faults) nor `unknown_outcome` (reopens at once, ends with
+/// a clean close) produces; control-plane writes (watermark, metadata, intents) are always fault
+/// targets, document writes on a sample.
+pub async fn failed_call_then_crash(seed_rng: &Rng, backend: Backend, tier: vcore::Tier, st: &mut Stats) {
+    // clean pass: which attempt touches which object
+    let plan = |rng: &mut Rng| -> (Cfg, IndexSet, usize, usize) {
+        let cfg = Cfg::random(rng);
+        let set0 = if rng.chance(1, 2) { IndexSet::ALL } else { IndexSet(rng.below(512) as u16) };
+        let n_adds = 70 + rng.usize(70);
+        let flush_at = rng.usize(n_adds);
+        (cfg, set0, n_adds, flush_at)
+    };
+    let run = |fault: Option<Fault>| {
+        let mut rng = seed_rng.clone();
+        async move {
+            let (cfg, set0, n_adds, flush_at) = plan(&mut rng);
+            let rec = RecStore::new();
+            rec.set_record_reads(false);
+            let store = wrap(backend, rec.as_dyn());
+            let d = Driver::start(store, cfg, set0).await;
+            (rng, cfg, set0, n_adds, flush_at, rec, d, fault)
+        }
+    };
+    let (mut rng, _cfg, _set0, n_adds, flush_at, rec, d, _) = run(None).await;
+    let Ok(mut d) = d else { return };
+    let setup_attempts = rec.attempts() as usize;
+    for i in 0..n_adds {
+        let mut doc = crate::gen_doc(&mut rng, 1 << 40);
+        doc.codes.clear();
+        doc.slot = 2_000_000 + i as u64;
+        if !matches!(d.step(&Op::Add(doc), st).await, Step::Applied) {
+            st.inconclusive("C01 failed_call_then_crash: clean pass add not applied");
+            return;
+        }
+        if i == flush_at {
+            let _ = d.step(&Op::Flush, st).await;
+        }
+    }
+    let muts = rec.mutations();
+    let mut targets: Vec<(usize, bool)> = vec![]; // (attempt, control plane?)
+    for (a, m) in muts.iter().enumerate().skip(setup_attempts) {
+        let desc = m.describe();
+        let is_doc = desc.contains("/data/") || desc.contains("data/");
+        let control = desc.contains("alloc_watermark") || desc.contains("meta") && !is_doc || desc.contains("intent") || desc.contains("ids");
+        targets.push((a, control && !is_doc || desc.contains("alloc_watermark")));
+    }
+    let control: Vec<usize> = targets.iter().filter(|t| t.1).map(|t| t.0).collect();
+    let mut sample: Vec<usize> = targets.iter().filter(|t| !t.1).map(|t| t.0).collect();
+    let mut pick_rng = seed_rng.clone().fork();
+    pick_rng.shuffle(&mut sample);
+    sample.truncate(tier.pick(3, 24));
+    // every write of the allocation watermark, then an evenly spaced sample of the other
+    // control-plane writes, then the sampled document writes
+    let wm: Vec<usize> = muts.iter().enumerate().skip(setup_attempts).filter(|(_, m)| m.describe().contains("alloc_watermark")).map(|(a, _)| a).collect();
+    st.add("fcc_watermark_write_targets", wm.len() as u64);
+    let mut chosen: Vec<usize> = wm.clone();
+    let others: Vec<usize> = control.iter().copied().filter(|a| !wm.contains(a)).collect();
+    let want = tier.pick(8, 200).min(others.len());
+    for j in 0..want {
+        chosen.push(others[j * others.len() / want.max(1)]);
+    }
+    chosen.extend(sample);
+    st.add("fcc_control_plane_targets", control.len() as u64);
+    for a in chosen {
+        for fault in [Fault::FailBefore(a as u64), Fault::FailAfter(a as u64)] {
+            let (mut rng, cfg, _set0, n_adds, flush_at, rec, d, _) = run(Some(fault)).await;
+            let Ok(mut d) = d else { continue };
+            rec.set_fault(fault);
+            st.eval();
+            st.count("failed_call_then_crash_runs");
+            let mut hist_extra: Vec<String> = vec![format!("fault={fault:?} backend={backend:?} target={}", muts[a].describe())];
+            let mut aborted = false;
+            for i in 0..n_adds {
+                let mut doc = crate::gen_doc(&mut rng, 1 << 40);
+                doc.codes.clear();
+                doc.slot = 2_000_000 + i as u64;
+                let before = d.model.clone();
+                let set_before = d.set;
+                let op = Op::Add(doc.clone());
+                match d.step(&op, st).await {
+                    Step::Applied | Step::Rejected(_) => {}
+                    Step::Wrong(sig, detail) => {
+                        hist_extra.extend(d.history.clone());
+                        st.violation(format!("{}/FCC/{sig}", pfx()), json!({"detail": detail, "history": hist_extra}));
+                        aborted = true;
+                        break;
+                    }
+                    Step::Failed(err) => {
+                        st.count("fcc_fault_hit_add");
+                        let known: BTreeSet<u64> = before.docs.keys().copied().collect();
+                        if d.coll.state() == anda_db::error::CollectionState::Active {
+                            // clean error, live handle: the application goes on with it
+                            st.count("fcc_continued_on_live_handle");
+                            let extra: Vec<u64> = d.coll.ids().into_iter().filter(|i| !known.contains(i)).collect();
+                            if extra.len() == 1 {
+                                let mut n = doc.clone();
+                                n._id = extra[0];
+                                d.model.docs.insert(extra[0], n);
+                                d.issued.insert(extra[0]);
+                            }
+                            d.history.push(format!("-- storage error, handle still Active, application continues: {}", &err[..err.len().min(100)]));
+                        } else {
+                            st.count("fcc_reopened_after_fault");
+                            let cold = wrap(backend, rec.as_dyn());
+                            let mut nd = match recover_driver(cold, cfg, set_before, false, st).await {
+                                Ok(nd) => nd,
+                                Err(e2) => {
+                                    hist_extra.extend(d.history.clone());
+                                    st.violation(sg("FCC/reopen_failed"), json!({"op_error": err, "error": format!("{e2:?}"), "history": hist_extra}));
+                                    aborted = true;
+                                    break;
+                                }
+                            };
+                            let mut resolved = before.clone();
+                            let extra: Vec<u64> = nd.coll.ids().into_iter().filter(|i| !known.contains(i)).collect();
+                            let mut issued = d.flushed_issued.clone();
+                            if extra.len() == 1 {
+                                let mut n = doc.clone();
+                                n._id = extra[0];
+                                resolved.docs.insert(extra[0], n);
+                                issued.insert(extra[0]);
+                            }
+                            nd.model = resolved;
+                            nd.flushed_issued = d.flushed_issued.clone();
+                            nd.issued = issued;
+                            nd.history = d.history.clone();
+                            nd.history.push("-- storage error, application reopened".into());
+                            d = nd;
+                        }
+                    }
+                }
+                if i == flush_at {
+                    match d.step(&Op::Flush, st).await {
+                        Step::Failed(_) => {
+                            // a failed flush poisons the handle: reopen like an application
+                            st.count("fcc_fault_hit_flush");
+                            let cold = wrap(backend, rec.as_dyn());
+                            match recover_driver(cold, cfg, d.set, false, st).await {
+                                Ok(mut nd) => {
+                                    nd.model = d.model.clone();
+                                    nd.flushed_issued = d.flushed_issued.clone();
+                                    nd.issued = d.flushed_issued.clone();
+                                    nd.history = d.history.clone();
+                                    d = nd;
+                                }
+                                Err(e2) => {
+                                    st.violation(sg("FCC/reopen_failed"), json!({"error": format!("{e2:?}"), "history": d.history}));
+                                    aborted = true;
+                                    break;
+                                }
+                            }
+                        }
+                        Step::Wrong(sig, detail) => {
+                            st.violation(format!("{}/FCC/{sig}", pfx()), json!({"detail": detail, "history": d.history}));
+                            aborted = true;
+                            break;
+                        }
+                        _ => {}
+                    }
+                }
+            }
+            if aborted {
+                return;
+            }
+            if !rec.fault_fired() {
+                st.count("fcc_fault_never_reached");
+                continue;
+            }
+            // power loss now (no flush, no close): everything acknowledged must be recovered
+            let snap = rec.snapshot().await;
+            let cold = wrap(backend, snap as Arc<dyn ObjectStore>);
+            match recover_driver(cold, cfg, d.set, false, st).await {
+                Err(e) => {
+                    hist_extra.extend(d.history.clone());
+                    st.violation(sg("FCC/recovery_failed"), json!({"error": format!("{e:?}"), "history": hist_extra}));
+                    return;
+                }
+                Ok(nd) => {
+                    let ctx = d.ctx();
+                    let he = hist_extra.clone();
+                    let ok = audit(&nd.coll, &d.model, d.set, st, &AuditCtx { sig: &sg("FCC"), ctx: &|| json!({"scenario": he, "driver": ctx.clone()}) }).await;
+                    st.count("fcc_recoveries_audited");
+                    if !ok {
+                        return;
+                    }
+                    // and the recovered collection hands out only fresh ids
+                    let mut nd = nd;
+                    nd.model = d.model.clone();
+                    nd.issued = d.model.docs.keys().copied().collect();
+                    for j in 0..3u64 {
+                        let mut doc = crate::gen_doc(&mut rng, 1 << 40);
+                        doc.codes.clear();
+                        doc.slot = 3_000_000 + j;
+                        if let Step::Wrong(sig, detail) = nd.step(&Op::Add(doc), st).await {
+                            st.violation(format!("{}/FCC/after_recovery/{sig}", pfx()), json!({"detail": detail, "scenario": hist_extra, "history": nd.history}));
+                            return;
+                        }
+                    }
+                }
+            }
+        }
+    }
+}
+
 pub async fn recover_driver(store: Arc<dyn ObjectStore>, cfg: Cfg, set: IndexSet, allow_recreate: bool, st: &mut Stats) -> Result<Driver, DBError> {
     let (db, coll) = try_recover(store.clone(), &cfg, set, allow_recreate, st).await?;
     Ok(Driver { store, cfg, set, db, coll, model: Model::default(), issued: BTreeSet::new(), flushed_issued: BTreeSet::new(), history: vec![] })
@@ -778,6 +1022,13 @@ pub fn case(case: u64, rng: &mut Rng, st: &mut Stats, tier: vcore::Tier) {
                 st.count("workloads_cut_by_exploration_budget");
                 st.add("crash_points_not_explored_for_time", (m - k) as u64);
                 break;
+            }
+        }
+        // a failed call, the live handle kept, a crash later (stride-crossing add runs)
+        if case % 8 == 1 {
+            failed_call_then_crash(&wl_rng, backend, tier, st).await;
+            if st.violations.len() >= 3 {
+                return;
             }
         }
         // UO: a single call failing before / after it landed
